@@ -50,7 +50,7 @@ OpAt(c, k, n) == IF "s" \in DOMAIN c THEN ToOp(T.ops[n][c.s[k]]) ELSE ToOp(c.ops
 Final(c, objs) ==
     LET gnu == c.g = 1
         badL(o)  == c.f \in {0, 2} /\ ToArgs(c.o[o][1]) # objs[o]
-        badN(o)  == c.f # 2 /\ ToArgs(c.o[o][2]) # NativeOf(objs[o], gnu)
+        badN(o)  == c.f # 2 /\ ToArgs(c.o[o][2]) \notin NativeSet(objs[o], gnu)
         badL2(o) == c.f = 0 /\ ToArgs(c.o[o][3]) # objs[o]
         bad(o)   == badL(o) \/ badN(o) \/ badL2(o)
     IN IF Len(c.o) # Len(objs) THEN <<V(c, "ObjectCount", NOps(c) + 1, 0, <<Len(objs)>>, <<Len(c.o)>>)>>
@@ -73,7 +73,7 @@ Walk(c, objs, k, acc) ==
          IN IF op.o \notin 1..Len(objs) THEN Append(acc, V(c, "HarnessBadObject", k, op.o, <<>>, <<>>))
             ELSE LET r == Step(objs, op, c.g = 1)
                      v == IF op.k \in Readers
-                          THEN IF ToArgs(got) = r.ret THEN <<>>
+                          THEN IF ToArgs(got) = r.ret \/ (op.k = "native" /\ ToArgs(got) \in NativeSet(objs[op.o], c.g = 1)) THEN <<>>
                                ELSE IF op.k = "rev" /\ got = <<-1>> THEN <<V(c, "ReversedRaised", k, op.o, ToIdx(r.ret), got)>>
                                ELSE <<V(c, "ReadReturn", k, op.o, ToIdx(r.ret), got)>>
                           ELSE IF got = r.ret THEN <<>>
